@@ -7,6 +7,8 @@ import (
 	"fmt"
 	"net"
 	"sync/atomic"
+
+	"github.com/gocql/gocql/internal/streams"
 )
 
 // This file is only compiled with the "verif" build tag. It exposes read-only views and
@@ -240,3 +242,10 @@ func verifWrote(frame []byte, n int, err error) {
 		f(frame, n, err)
 	}
 }
+
+// VerifNewStreams returns a stream-id allocator as a connection of the given protocol
+// version would create it, together with the function that installs a yield callback.
+func VerifNewStreams(protocol int) *streams.IDGenerator { return streams.New(protocol) }
+
+// VerifSetStreamYield installs the callback run before each atomic step of the allocator.
+func VerifSetStreamYield(f func(point int)) { streams.VerifSetYield(f) }
